@@ -31,6 +31,7 @@ type Engine struct {
 	copyMethods map[string]*ssa.Function
 	assumeKindInv bool
 	privMemo    map[*ssa.Alloc]bool
+	fieldFnOf   map[string][]fieldFnBinding
 }
 
 const contractFileName = "zz_contracts_verif.go"
@@ -111,6 +112,7 @@ func LoadEngine(repo string, patterns []string, overlay map[string][]byte) (*Eng
 		}
 	}
 	e.setupCopyFamily()
+	e.setupFieldFns()
 	return e, nil
 }
 
